@@ -491,6 +491,7 @@ def _part_f(task, rec):
     first_answer = {}
     fails = {}   # (budget, eps, clause) -> list of (cls, what, case, expected, observed)
     ran = {}     # (budget, eps) -> number of labelings executed
+    answered = {}  # (budget, eps) -> number of labelings for which the library returned a consumption vector
 
     def fail(budget, eps, clause, cls, what, case, expected, observed):
         fails.setdefault((budget, eps, clause), []).append((cls, what, case, expected, observed))
@@ -526,6 +527,7 @@ def _part_f(task, rec):
                         rec.retire = True
                     continue
                 xs = out
+                answered[(budget, eps)] = answered.get((budget, eps), 0) + 1
                 scale = max(1.0, budget)
                 pattern = ''.join(GOODS[k] for k in range(3) if xs[k] > ZERO * scale)
                 ncorner = sum(1 for k in range(3) if xref[k] == 0.0)
@@ -578,8 +580,8 @@ def _part_f(task, rec):
     # otherwise the key carries the class of the failing labeling
     force = task.get('force_cls')
     for (budget, eps, clause), lst in fails.items():
-        n = ran.get((budget, eps), 0)
-        nb = len(bf_labs & set(range(len(labs)))) if clause == 'worse-than-brute-force' else n
+        n = ran.get((budget, eps), 0) if clause.startswith('forecast-raises') else answered.get((budget, eps), 0)
+        nb = n
         everywhere = (len(lst) >= nb and nb > 1) or clause == 'worse-than-brute-force'
         for cls, what, case, expected, observed in lst:
             c = force if force is not None else ('any' if everywhere else cls)
